@@ -2,6 +2,8 @@ import FrappyProofs.Lemmas.CompatComplete
 import FrappyProofs.Lemmas.CompatLawsRat
 import FrappyProofs.Lemmas.CopyHeap
 import FrappyProofs.Lemmas.DatainfoOpt
+import FrappyProofs.Lemmas.Variants
+import FrappyProofs.Lemmas.CompatRefl
 import FrappyModel.Generated.C03
 /-
 C03 — property theorems (nothing but property theorems, table facts and non-vacuity examples).
@@ -120,6 +122,213 @@ theorem compatible_complete (a b : DType F) (ha : a.WF) (hb : b.WF) (hal : GridA
     (hn : Nested a b) : compatible a b = .ok () :=
   compat_complete a b ha hb hal hbl hn
 
+/-! ## compatibility verdicts with derived classes (`TextType`, `LimitsType`, `StatusType`) on either side -/
+
+open Frappy.Lemmas.C03V in
+/-- a derived class gets the verdict of the kind it is described as: on either side, at any depth, `compatibleC`
+(the inherited `compatible` methods with their `isinstance` / attribute tests, `FrappyModel/Datatypes/Variants.lean`)
+is `compatible` of the two kind trees — in particular a datatype and its own description are compatible whenever
+the description is compatible with itself -/
+theorem compatibleC_as_described (a b : CType F) (hb : b.WF) : compatibleC a b = compatible a.erase b.erase :=
+  compatibleC_erase a b (wf_leafy b hb)
+
+open Frappy.Lemmas.C03V in
+/-- "it does pass for the pairings it is written to support when the value sets are nested", derived classes
+included: `NestedC` = the kind trees are nested and every `LimitsType` of the second meets a `LimitsType` of the first -/
+theorem compatibleC_complete (a b : CType F) (ha : a.WF) (hb : b.WF) (hal : GridAligned a.erase)
+    (hbl : GridAligned b.erase) (hn : NestedC a b) : compatibleC a b = .ok () := by
+  rw [compatibleC_as_described a b hb]
+  exact compat_complete a.erase b.erase (erase_wf a ha) (erase_wf b hb) hal hbl hn.1
+
+/-- the full statement for trees with derived classes: the value set is `InSetC` (pairs of a `LimitsType` ordered),
+"valid for the second" is `cvalidate` (the order test of every `LimitsType` included) -/
+def compatibleC_sound_statement (F : Type) [FloatOps F] : Prop :=
+  ∀ a b : CType F, a.WF → b.WF → GridAligned a.erase → GridAligned b.erase → ResLeOne b.erase →
+    OptionalRespected a.erase b.erase → compatibleC a b = .ok () →
+    ∀ v, InSetC a v → ∃ r, cvalidate b v none = .ok r
+
+open Frappy.Lemmas.C03V in
+/-- proved part: a passing check is sound when the *second* type holds no `LimitsType` (derived classes anywhere in
+the first, `TextType` / `StatusType` anywhere in the second) — always the case when the second type was rebuilt from
+a description (`ProxyModule._check_descriptive_data`: `pobj.datatype.compatible(remote datatype)`).  Missing for the
+full statement: a `LimitsType` in the second type.  Against a plain tuple the statement is false
+(`compatibleC_sound_fails_limits`, recorded finding); against a `LimitsType` of the first type it needs that
+`validate` of the number kinds is monotone (ordered pairs stay ordered), which is not proved. -/
+theorem compatibleC_sound_partial (a b : CType F) (ha : a.WF) (hb : b.WF) (hal : GridAligned a.erase)
+    (hbl : GridAligned b.erase) (hres : ResLeOne b.erase) (hopt : OptionalRespected a.erase b.erase)
+    (hlim : b.limitsFree = true) (h : compatibleC a b = .ok ()) :
+    ∀ v, InSetC a v → ∃ r, cvalidate b v none = .ok r := by
+  intro v hv
+  rw [cvalidate_limitsFree b hlim]
+  rw [compatibleC_as_described a b hb] at h
+  exact compat_sound a.erase b.erase (erase_wf a ha) (erase_wf b hb) hal hbl hres hopt h v hv.1
+
+/-- the full statement fails on the code that exists: `TupleOf(IntRange(0,10), IntRange(0,10))` passes the check
+against `LimitsType(IntRange(0,10))`, and `(10, 0)` — valid for the plain tuple — is refused by `LimitsType.validate` -/
+theorem compatibleC_sound_fails_limits : ¬ compatibleC_sound_statement Rat := by
+  intro hs
+  have h := hs (.tuple [.leaf (.int 0 10), .leaf (.int 0 10)]) (.limits (.leaf (.int 0 10)))
+    (by simp [CType.WF, CType.WFList, DType.WF, DType.isLeafKind, DType.intLimit])
+    (by simp [CType.WF, CType.isNumeric, DType.WF, DType.isLeafKind, DType.intLimit])
+    (by simp [CType.erase, CType.eraseList, GridAligned, GridAlignedList])
+    (by simp [CType.erase, GridAligned, GridAlignedList])
+    (by simp [CType.erase, ResLeOne, ResLeOneList])
+    (by simp [CType.erase, CType.eraseList, OptionalRespected, OptionalRespectedList])
+    rfl (.tuple [.int 10, .int 0])
+    (by simp [InSetC, InSet, InSetG, ZipInG, CType.erase, CType.eraseList, OrderedIn, OrderedZip])
+  obtain ⟨r, hr⟩ := h
+  have : cvalidate (.limits (.leaf (.int 0 10)) : CType Rat) (.tuple [.int 10, .int 0]) none = .error .range := rfl
+  rw [this] at hr
+  cases hr
+
+/-! ## rebuilding and copying trees with derived classes -/
+
+open Frappy.Lemmas.C03V in
+/-- `copy()` of a tree with derived classes (`copyC`: `TextType` and `LimitsType` come back as themselves, a
+`StatusType` as the plain tuple of its members) is described as the same kind tree — hence `copy_equiv` applies to
+its datainfo, `import_value` and `__call__`, which the derived classes inherit — and validates exactly like the
+original, the order test of every `LimitsType` included -/
+theorem copyC_equiv (a : CType F) :
+    (copyC a).erase = a.erase ∧ ∀ v prev, cvalidate (copyC a) v prev = cvalidate a v prev :=
+  ⟨erase_copyC a, cvalidate_copyC a⟩
+
+/-- the full statement for the rebuild: the type `get_datatype` builds from the description of a tree with derived
+classes (`rebuildC`: base classes only) accepts and rejects the same values with equal results -/
+def rebuildC_equiv_statement (F : Type) [FloatOps F] : Prop :=
+  ∀ (a : CType F) (v : PVal F) (prev : Option (PVal F)), a.WF → cvalidate (rebuildC a) v prev = cvalidate a v prev
+
+open Frappy.Lemmas.C03V in
+/-- proved part: … when the tree holds no `LimitsType` (`TextType`, `StatusType` anywhere).  Missing: `LimitsType`,
+whose order test is not part of the description — counterexample below (recorded finding). -/
+theorem rebuildC_equiv_partial (a : CType F) (h : a.limitsFree = true) (v : PVal F) (prev : Option (PVal F)) :
+    (rebuildC a).erase = a.erase ∧ cvalidate (rebuildC a) v prev = cvalidate a v prev :=
+  ⟨erase_ofKind a.erase, cvalidate_rebuildC a h v prev⟩
+
+/-- the full statement fails on the code that exists: `LimitsType(IntRange(0,10))` is described as
+`tuple(int, int)`; the rebuilt type accepts `(10, 0)`, the original refuses it -/
+theorem rebuildC_equiv_fails_limits : ¬ rebuildC_equiv_statement Rat := by
+  intro hs
+  have h := hs (.limits (.leaf (.int 0 10))) (.tuple [.int 10, .int 0]) none
+    (by simp [CType.WF, CType.isNumeric, DType.WF, DType.isLeafKind, DType.intLimit])
+  have h1 : cvalidate (rebuildC (.limits (.leaf (.int 0 10)) : CType Rat)) (.tuple [.int 10, .int 0]) none
+      = .ok (.tuple [.int 10, .int 0]) := rfl
+  have h2 : cvalidate (.limits (.leaf (.int 0 10)) : CType Rat) (.tuple [.int 10, .int 0]) none = .error .range := rfl
+  rw [h1, h2] at h
+  cases h
+
+/-! ## a datatype against itself and against its own description; the users of `compatible()` -/
+
+open Frappy.Lemmas.C03V in
+/-- every datatype is compatible with itself ("same kind with equal limits") -/
+theorem compatible_self (t : DType F) (h : t.WF) (hal : GridAligned t) : compatible t t = .ok () :=
+  compatible_refl t h hal
+
+open Frappy.Lemmas.C03V in
+/-- a datatype — derived classes at any depth — and the datatype a client rebuilds from its description are
+compatible in both directions -/
+theorem compatible_with_own_description (a : CType F) (ha : a.WF) (hal : GridAligned a.erase) :
+    compatibleC a (rebuildC a) = .ok () ∧ compatibleC (rebuildC a) a = .ok () :=
+  described_compatible a ha hal
+
+/-- hence `ProxyModule._check_descriptive_data` logs no datatype warning for a parameter checked against the
+description of the very same parameter (only 'is read only' when the remote one is and the local one is not) -/
+theorem proxy_own_description_silent (a : CType F) (ha : a.WF) (hal : GridAligned a.erase) (pname : String)
+    (exported readonly remoteReadonly : Bool) :
+    proxyParam pname exported readonly a (some ⟨rebuildC a, remoteReadonly⟩) =
+      if !readonly && remoteReadonly then [.readOnly] else [] := by
+  obtain ⟨h1, h2⟩ := compatible_with_own_description a ha hal
+  simp only [proxyParam, h1, h2, passes]
+  cases readonly <;> cases remoteReadonly <;> rfl
+
+open Frappy.Lemmas.C03V in
+/-- … and `Writable.__init__` accepts a module whose `target` has the datatype of its `value` -/
+theorem writable_same_datatype_ok (a : CType F) (ha : a.WF) (hal : GridAligned a.erase) : writableCheck a a = .ok := by
+  have : compatibleC a a = .ok () := by
+    rw [compatibleC_erase a a (wf_leafy a ha)]
+    exact compatible_refl _ (erase_wf a ha) hal
+  simp only [writableCheck, this, passes, if_true]
+
+/-! ## commands -/
+
+/-- a passing `compatOpt`: both `None`, or both datatypes with a passing check -/
+theorem compatOpt_ok {x y : Option (CType F)} (h : compatOpt x y = .ok ()) :
+    (x = none ∧ y = none) ∨ ∃ a b, x = some a ∧ y = some b ∧ compatibleC a b = .ok () := by
+  match x, y, h with
+  | none, none, _ => exact .inl ⟨rfl, rfl⟩
+  | some a, some b, h => exact .inr ⟨a, b, rfl, rfl, h⟩
+  | none, some _, h => simp [compatOpt] at h
+  | some _, none, h => simp [compatOpt] at h
+
+/-- a passing `CommandType.compatible` means: both commands take an argument or neither does, and the argument type
+here passed the check against the one there; both give a result or neither does, and the result type there passed
+the check against the one here — so `compatibleC_sound_partial` applies to the two pairs (arguments valid here are
+valid there, results valid there are valid here) -/
+theorem compatibleCmd_reduces (a b : CmdType F) (h : compatibleCmd a b = .ok ()) :
+    ((a.argument = none ∧ b.argument = none) ∨
+      ∃ x y, a.argument = some x ∧ b.argument = some y ∧ compatibleC x y = .ok ()) ∧
+    ((a.result = none ∧ b.result = none) ∨
+      ∃ x y, a.result = some x ∧ b.result = some y ∧ compatibleC y x = .ok ()) := by
+  unfold compatibleCmd at h
+  cases h1 : compatOpt a.argument b.argument with
+  | error e => rw [h1] at h; cases h
+  | ok u =>
+    rw [h1] at h
+    refine ⟨compatOpt_ok h1, ?_⟩
+    rcases compatOpt_ok h with ⟨p, q⟩ | ⟨y, x, p, q, r⟩
+    · exact .inl ⟨q, p⟩
+    · exact .inr ⟨x, y, q, p, r⟩
+
+/-- `CommandType.compatible` passes on the pairings of the statement: arguments nested towards the other command,
+results nested from it -/
+theorem compatibleCmd_complete (a b : CmdType F)
+    (hwa : ∀ x, a.argument = some x ∨ a.result = some x → x.WF ∧ GridAligned x.erase)
+    (hwb : ∀ y, b.argument = some y ∨ b.result = some y → y.WF ∧ GridAligned y.erase)
+    (hn : NestedCmd a b) : compatibleCmd a b = .ok () := by
+  unfold NestedCmd at hn
+  have harg : compatOpt a.argument b.argument = .ok () := by
+    have h1 := hn.1
+    cases ha : a.argument with
+    | none =>
+      cases hb : b.argument with
+      | none => rfl
+      | some y => rw [ha, hb] at h1; exact h1.elim
+    | some x =>
+      cases hb : b.argument with
+      | none => rw [ha, hb] at h1; exact h1.elim
+      | some y =>
+        rw [ha, hb] at h1
+        exact compatibleC_complete x y (hwa x (.inl ha)).1 (hwb y (.inl hb)).1 (hwa x (.inl ha)).2 (hwb y (.inl hb)).2 h1
+  have hres : compatOpt b.result a.result = .ok () := by
+    have h2 := hn.2
+    cases ha : a.result with
+    | none =>
+      cases hb : b.result with
+      | none => rfl
+      | some y => rw [ha, hb] at h2; exact h2.elim
+    | some x =>
+      cases hb : b.result with
+      | none => rw [ha, hb] at h2; exact h2.elim
+      | some y =>
+        rw [ha, hb] at h2
+        exact compatibleC_complete y x (hwb y (.inr hb)).1 (hwa x (.inr ha)).1 (hwb y (.inr hb)).2 (hwa x (.inr ha)).2 h2
+  simp only [compatibleCmd, harg, hres]
+
+/-- a command is compatible with the command rebuilt from its own description, so the proxy check logs nothing for it -/
+theorem proxy_own_command_silent (a : CmdType F)
+    (hwa : ∀ x, a.argument = some x ∨ a.result = some x → x.WF ∧ GridAligned x.erase) :
+    compatibleCmd a (rebuildCmd a) = .ok () ∧ proxyCommand a (some (rebuildCmd a)) = [] := by
+  have harg : compatOpt a.argument (a.argument.map rebuildC) = .ok () := by
+    cases ha : a.argument with
+    | none => rfl
+    | some x => exact (compatible_with_own_description x (hwa x (.inl ha)).1 (hwa x (.inl ha)).2).1
+  have hres : compatOpt (a.result.map rebuildC) a.result = .ok () := by
+    cases ha : a.result with
+    | none => rfl
+    | some x => exact (compatible_with_own_description x (hwa x (.inr ha)).1 (hwa x (.inr ha)).2).2
+  have h : compatibleCmd a (rebuildCmd a) = .ok () := by
+    simp only [compatibleCmd, rebuildCmd, harg, hres]
+  exact ⟨h, by simp only [proxyCommand, h, passes, if_true]⟩
+
 /-- the monitor decides `Nested` -/
 theorem nestedB_iff (a b : DType F) : nestedB a b = true ↔ Nested a b := decide_eq_true_iff
 
@@ -212,6 +421,65 @@ example : ∃ (a b : DType Rat), a.WF ∧ b.WF ∧ GridAligned a ∧ GridAligned
 example : ∃ (a b : DType Rat), a.WF ∧ b.WF ∧ GridAligned a ∧ GridAligned b ∧ Nested a b :=
   ⟨.array (.int 1 2) 0 3, .array (.enum [("a", 1), ("b", 2)]) 0 5, by simp [DType.WF, DType.intLimit],
     by simp [DType.WF, DType.namesOK], trivial, trivial, by simp [Nested, rangeInB, rangeInFrom]⟩
+
+/-- `compatibleC_complete` applies to a `LimitsType` against the plain tuple it is described as (with wider members) … -/
+example : ∃ (a b : CType Rat), a.WF ∧ b.WF ∧ GridAligned a.erase ∧ GridAligned b.erase ∧ NestedC a b ∧ a.cls = "limits" :=
+  ⟨.limits (.leaf (.int 1 2)), .tuple [.leaf (.int 0 5), .leaf (.int 1 2)],
+    by simp [CType.WF, CType.isNumeric, DType.WF, DType.isLeafKind, DType.intLimit],
+    by simp [CType.WF, CType.WFList, DType.WF, DType.isLeafKind, DType.intLimit],
+    by simp [CType.erase, GridAligned, GridAlignedList], by simp [CType.erase, CType.eraseList, GridAligned, GridAlignedList],
+    by decide +kernel, rfl⟩
+
+/-- … and the hypotheses of `compatibleC_sound_partial` are met by a `StatusType` checked against the tuple it is
+described as, with a value in its set -/
+example : ∃ (a b : CType Rat), a.WF ∧ b.WF ∧ GridAligned a.erase ∧ GridAligned b.erase ∧ ResLeOne b.erase ∧
+    OptionalRespected a.erase b.erase ∧ b.limitsFree = true ∧ compatibleC a b = .ok () ∧
+    InSetC a (.tuple [.enum "IDLE" 100, .str "ok"]) := by
+  have wa : (CType.status [("IDLE", 100), ("BUSY", 300)] : CType Rat).WF := by simp [CType.WF, DType.namesOK]
+  have wb : (CType.tuple [.leaf (.enum [("IDLE", 100), ("BUSY", 300), ("ERROR", 400)]), .text unlimitedChars] : CType Rat).WF := by
+    simp [CType.WF, CType.WFList, DType.WF, DType.isLeafKind, DType.namesOK]
+  refine ⟨_, _, wa, wb, by simp [CType.erase, GridAligned, GridAlignedList],
+    by simp [CType.erase, CType.eraseList, GridAligned, GridAlignedList],
+    by simp [CType.erase, CType.eraseList, ResLeOne, ResLeOneList],
+    by simp [CType.erase, CType.eraseList, OptionalRespected, OptionalRespectedList], by decide, ?_, ?_⟩
+  · exact compatibleC_complete _ _ wa wb (by simp [CType.erase, GridAligned, GridAlignedList])
+      (by simp [CType.erase, CType.eraseList, GridAligned, GridAlignedList]) (by decide +kernel)
+  · simp [InSetC, InSet, InSetG, ZipInG, CType.erase, OrderedIn, unlimitedChars]
+    decide
+
+/-- `rebuildC_equiv_partial` applies to a struct holding a `StatusType` and a `TextType`; `copyC` turns the
+`StatusType` into a plain tuple and keeps a `LimitsType` -/
+example : ∃ a : CType Rat, a.WF ∧ a.limitsFree = true ∧
+    (rebuildC a).skel = .struct [("s", .tuple [.leaf, .leaf]), ("t", .leaf)] ∧
+    (copyC (.tuple [a, .limits (.leaf (.int 0 5))])).skel =
+      .tuple [.struct [("s", .tuple [.leaf, .leaf]), ("t", .text)], .limits .leaf] :=
+  ⟨.struct [("s", .status [("IDLE", 100)]), ("t", .text 80)] [] false,
+    by simp [CType.WF, CType.WFFields, DType.namesOK], by decide, rfl, rfl⟩
+
+/-- the hypotheses of `compatible_with_own_description` / `proxy_own_description_silent` are met by the datatype of
+`target_limits` (a `LimitsType`) and of a status parameter (a `StatusType`) -/
+example : ∃ a b : CType Rat, a.WF ∧ GridAligned a.erase ∧ a.cls = "limits" ∧ b.WF ∧ GridAligned b.erase ∧ b.cls = "status" :=
+  ⟨.limits (.leaf (.int 0 10)), .status [("IDLE", 100), ("BUSY", 300)],
+    by simp [CType.WF, CType.isNumeric, DType.WF, DType.isLeafKind, DType.intLimit],
+    by simp [CType.erase, GridAligned, GridAlignedList], rfl,
+    by simp [CType.WF, DType.namesOK], by simp [CType.erase, GridAligned, GridAlignedList], rfl⟩
+
+/-- the hypotheses of `compatibleCmd_complete` / `proxy_own_command_silent` are met by a command with an integer
+argument and a status result, against one taking a wider argument -/
+example : ∃ a b : CmdType Rat, (∀ x, a.argument = some x ∨ a.result = some x → x.WF ∧ GridAligned x.erase) ∧
+    (∀ y, b.argument = some y ∨ b.result = some y → y.WF ∧ GridAligned y.erase) ∧ NestedCmd a b ∧ a.argument.isSome = true := by
+  have w1 : (CType.leaf (.int 0 5) : CType Rat).WF ∧ GridAligned (CType.leaf (.int 0 5) : CType Rat).erase := by
+    simp [CType.WF, DType.WF, DType.isLeafKind, DType.intLimit, CType.erase, GridAligned]
+  have w2 : (CType.leaf (.int 0 9) : CType Rat).WF ∧ GridAligned (CType.leaf (.int 0 9) : CType Rat).erase := by
+    simp [CType.WF, DType.WF, DType.isLeafKind, DType.intLimit, CType.erase, GridAligned]
+  have w3 : (CType.status [("IDLE", 100)] : CType Rat).WF ∧ GridAligned (CType.status [("IDLE", 100)] : CType Rat).erase := by
+    simp [CType.WF, DType.namesOK, CType.erase, GridAligned, GridAlignedList]
+  refine ⟨⟨some (.leaf (.int 0 5)), some (.status [("IDLE", 100)])⟩, ⟨some (.leaf (.int 0 9)), some (.status [("IDLE", 100)])⟩,
+    ?_, ?_, by decide +kernel, rfl⟩
+  · intro x hx
+    rcases hx with hx | hx <;> cases hx <;> assumption
+  · intro y hy
+    rcases hy with hy | hy <;> cases hy <;> assumption
 
 /-- the law classes are inhabited: the exact carrier -/
 example : LawfulFloatOps Rat ∧ CompatLaws Rat := ⟨inferInstance, inferInstance⟩
